@@ -195,6 +195,18 @@ def check(chk):
               '_put_result lies on the cycle _put_result -> _execute_next -> _execute -> _put_result (synchronous-raise arm): the nested call and the outer call both see '
               '_current == _exec_count and complete the future; the second set_result raises InvalidStateError')
     eca = m.func('execute_concurrent_async')
+    # with nothing to execute no completion ever runs: the caller resolves the future with what execute() returned, unless something else already did
+    chk.rule('C32.empty', 'execute_concurrent_async resolves the future with the value of executor.execute(...) when it is not done after execute() returned')
+    ex_as = [st for st in body_walk(eca) if isinstance(st, ast.Assign) and isinstance(st.value, ast.Call) and src(st.value.func) == 'executor.execute' and isinstance(st.targets[0], ast.Name)]
+    sr_ = [c_ for c_ in body_walk(eca) if isinstance(c_, ast.Call) and src(c_.func) == 'future.set_result']
+    ok_empty = len(ex_as) == 1 and len(sr_) == 1 and [src(a_) for a_ in sr_[0].args] == [ex_as[0].targets[0].id]
+    if ok_empty:
+        from ..sem import flow_of as _flow32e
+        ge_, fe_ = _flow32e(eca)
+        nd_ = [n for n in ge_.stmt_nodes() if n.kind == 'stmt' and any(sr_[0] is x for x in ast.walk(n.ast))]
+        ok_empty = len(nd_) == 1 and all(fa.knows('future.done()') is False for fa, _c in fe_.at(nd_[0]))
+    chk.judge(ok_empty, 'C32.empty', eca, 'the future is resolved with execute()\'s result when no completion did it',
+              'for an empty statement list nothing ever completes the future: execute_concurrent_async(session, []) returns a future whose result() blocks for ever')
     exc_arms = [n for n in body_walk(eca) if isinstance(n, ast.ExceptHandler)]
     guarded2 = all(any(isinstance(x, ast.If) and 'future.done()' in src(x.test) for x in ast.walk(h)) for h in exc_arms) if exc_arms else True
     chk.judge(guarded2, 'C32.latch', eca, 'except arm of execute_concurrent_async completes the future only if not done',
